@@ -53,6 +53,8 @@ def _hist(draw, big):
             # positions (in the list of assignments) after which an assignment to a state that does not exist is tried
             # (refused by the library; the caller catches the exception and goes on)
             "bad_after": draw(st.lists(st.integers(0, 13), max_size=2)),
+            # how the (empty) rate matrix is created: by dimension, from a float array of zeros, from an integer one
+            "ctor": draw(st.sampled_from(["dim", "dim", "zeros-float", "zeros-int"])),
             # one more assignment made after the first propagation, followed by a second propagation with the same
             # propagator object: [to, from, value]
             "edit_after": draw(st.sampled_from([None, None]) | st.tuples(idx, idx, st.integers(1, 20)).map(list))}
@@ -78,7 +80,12 @@ def check_case(case, ctx):
     from ..core import guarded
 
     dim, unit = case["dim"], case["unit"]
-    R = RateMatrix(dim=dim)
+    ctor = case.get("ctor", "dim")
+    if ctor == "dim":
+        R = RateMatrix(dim=dim)
+    else:
+        R = RateMatrix(data=numpy.zeros((dim, dim), dtype=float if ctor == "zeros-float" else int))
+    ctx.label("ctor:" + ctor)
     model = {}
     overwritten = False
     scale = 20 * unit
